@@ -288,8 +288,10 @@ def groups(tier):
         'rachford-rice-2N': (g_rachford_rice(), dict(qtimeout_ms=60000)),
         'TP-phase-boundary': (g_phase_boundary(), dict(max_paths=1000000, task_budget_s=120)),
     }
+    g['spec-bookkeeping-HS'] = (g_bookkeeping(['PH', 'PS', 'TH', 'TS'], [1], ((0, 0),), ('both',)),
+                                dict(max_paths=3000000, task_budget_s=300))
+    g['spec-bookkeeping-xy'] = (g_bookkeeping(['Tx', 'Px', 'Ty', 'Py'], [2], ((0, 0),), ('both',)),
+                                dict(max_paths=3000000, task_budget_s=300))
     if not q:
-        g['spec-bookkeeping-HS-xy'] = (g_bookkeeping(['PH', 'PS', 'TH', 'TS', 'Tx', 'Px', 'Ty', 'Py'], [1, 2], ((0, 0),), ('both',)),
-                                       dict(max_paths=3000000, task_budget_s=300))
         g['PH-exactness'] = (g_PH_exact(), dict(max_paths=3000000, task_budget_s=300, qtimeout_ms=30000))
     return g
